@@ -117,7 +117,13 @@ def check_bookkeeping(ctx, db):
                 ctx.touch(f)
                 n += 1
                 pn = {p_['n'] for p_ in f.params}
-                okd = all(_strip_casts(a).k == 'DeclRefExpr' and _strip_casts(a).dk == 'param' for a in dl[0].args) and {'initial_position', 'width'} <= {_strip_casts(a).n for a in dl[0].args}
+                def bare(a):
+                    a = _strip_casts(a)
+                    while a is not None and a.k in ('CXXConstructExpr', 'MaterializeTemporaryExpr', 'CXXBindTemporaryExpr') and len([x for x in a.c if x is not None]) == 1:
+                        a = _strip_casts([x for x in a.c if x is not None][0])
+                    return a
+                args = [bare(a) for a in dl[0].args]
+                okd = all(a.k == 'DeclRefExpr' and a.dk == 'param' for a in args) and {'initial_position', 'width'} <= {a.n for a in args}
                 ctx.check(okd, 'R-PAIRCALL', 'FlexPath::init#%d/one-point-one-entry' % len(f.params), f.loc(), 'forwards its own parameters to the sibling init overload, which appends one spine point and one entry per element')
             continue
         if not sp:
